@@ -877,6 +877,14 @@ class Trellis:
             # Cut all ties to sources, so this node starts from a clean slate.
             node.del_all_sources()
             # Since this node is recreated, it cannot have created other nodes (yet).
+            # The edges to its former products go with them:
+            # a product that stays detached must not look like something this node still supplies,
+            # or a later `can_recycle` would take the stale edge for a declaration.
+            self.db.execute(
+                "DELETE FROM dependency WHERE source = ? "
+                "AND sink IN (SELECT i FROM node WHERE creator = ?)",
+                (node.i, node.i),
+            )
             for product in node.products():
                 product.detach()
         elif node_type is Root:
